@@ -186,6 +186,16 @@ def regime_records(ctx, rng, nid):
                 phis.append(['nan'])
         recs.append({'id': 'regime-%d' % next(nid), 'op': 'phi_regime', 'site': 'PhiManip.phi_1D',
                      'in': {'switch': name, 'points': [[rat(a), rat(b), rat(c)] for a, b, c in pts]}, 'out': {'phis': phis}})
+    # sizes far from 1: the regime is decided by the effective selection gamma*nu, not by gamma
+    for gam in (-250.0, -100.0, -40.0, 40.0, 100.0, 250.0):
+        for nu in (0.1, 10.0):
+            for h in (0.5, 0.3):
+                try:
+                    phi = rats(PhiManip.phi_1D(xx, nu=nu, gamma=gam, h=h))
+                except Exception as ex:
+                    phi = ['nan']
+                recs.append({'id': 'regime-%d' % next(nid), 'op': 'phi_regime', 'site': 'PhiManip.phi_1D',
+                             'in': {'switch': 'size far from 1', 'points': [[rat(gam), rat(h), rat(nu)]]}, 'out': {'phis': [phi]}})
     # extremes of the stated domain: finite and non-negative (no continuity claim between unrelated points)
     for r in range(6 if ctx.quick else 40):
         gam = rng.choice([-1e6, -1e5, -1e4, -3e3, -1e3, 1e3, 999.0, 500.0, rng.uniform(-1e6, 1e3)])
@@ -206,7 +216,9 @@ def stationary_records(ctx, rng, nid):
     for c in range(4 if ctx.quick else 30):
         nu = rng.choice([1.0, math.exp(rng.uniform(math.log(0.1), math.log(10)))])
         gamma = rng.choice([0.0, rng.uniform(-8, 8) / nu])
-        h = rng.choice([0.5, rng.random()])
+        h = rng.choice([0.5, rng.random()]) if c % 4 != 1 else rng.choice([0.1, 0.9])
+        if c % 4 == 1 and gamma == 0.0:
+            gamma = rng.choice([-3.0, 2.0]) / nu
         theta0 = rng.uniform(0.5, 2)
         n = rng.choice([6, 12])
         T = rng.uniform(0.05, 0.3) * nu
@@ -216,7 +228,10 @@ def stationary_records(ctx, rng, nid):
             try:
                 phi = PhiManip.phi_1D(xx, nu=nu, theta0=theta0, gamma=gamma, h=h)
                 before = Spectrum.from_phi(phi, [n], (xx,))
-                phi2 = Integration.one_pop(phi, xx, T, nu=nu, gamma=gamma, h=h, theta0=theta0)
+                if c % 2:       # the same parameters passed as functions of time (on-the-fly kernel)
+                    phi2 = Integration.one_pop(phi, xx, T, nu=lambda t: nu, gamma=lambda t: gamma, h=h, theta0=theta0)
+                else:
+                    phi2 = Integration.one_pop(phi, xx, T, nu=nu, gamma=gamma, h=h, theta0=theta0)
                 after = Spectrum.from_phi(phi2, [n], (xx,))
                 runs.append({'pts': pts, 'before': rats(np.asarray(before.data)), 'after': rats(np.asarray(after.data))})
             except Exception as ex:
